@@ -2,6 +2,7 @@ import AtreeModel
 import AtreeModel.Replay.Array
 import AtreeModel.Replay.Storage
 import AtreeModel.Replay.Health
+import AtreeModel.Replay.Map
 /-
   atree_model: replays a trace (stdin) on the Lean model and compares every line the
   implementation produced with the model's own rendering.
@@ -46,6 +47,12 @@ partial def loopHealth (h : IO.FS.Stream) (s : HealthState) (n : Nat) : IO Healt
   let line := (line.dropRightWhile (fun c => c == '\n' || c == '\r'))
   loopHealth h (s.stepLine line n) (n + 1)
 
+partial def loopMap (h : IO.FS.Stream) (s : MapState) (n : Nat) : IO MapState := do
+  let line ← h.getLine
+  if line.isEmpty then return s
+  let line := (line.dropRightWhile (fun c => c == '\n' || c == '\r'))
+  loopMap h (s.stepLine line n) (n + 1)
+
 def main (args : List String) : IO UInt32 := do
   let stdin ← IO.getStdin
   match args with
@@ -59,11 +66,16 @@ def main (args : List String) : IO UInt32 := do
     let s := if s.pending.isEmpty then s else s.note s!"end of trace: model expected further lines: {s.pending}"
     IO.println ("RESULT " ++ reportJson "storage" s.rep)
     return (if s.rep.nMismatch == 0 then 0 else 1)
+  | ["map"] =>
+    let s ← loopMap stdin {} 1
+    let s := if s.pending.isEmpty then s else s.note s!"end of trace: model expected further lines: {s.pending}"
+    IO.println ("RESULT " ++ reportJson "map" s.rep)
+    return (if s.rep.nMismatch == 0 then 0 else 1)
   | ["health"] =>
     let s ← loopHealth stdin {} 1
     let s := if s.pending.isEmpty then s else s.note s!"end of trace: model expected further lines: {s.pending}"
     IO.println ("RESULT " ++ reportJson "health" s.rep)
     return (if s.rep.nMismatch == 0 then 0 else 1)
   | _ =>
-    IO.eprintln "usage: atree_model <array|storage|health> < trace"
+    IO.eprintln "usage: atree_model <array|storage|health|map> < trace"
     return 2
